@@ -7,5 +7,7 @@ import DafRel.Props.C02
 #print axioms DafRel.Props.C02.emitted_select_returns_reference_rows
 #print axioms DafRel.Props.C02.emitted_payload_stands_for_reference_rows
 #print axioms DafRel.Props.C02.to_executable_returns_reference_rows
+#print axioms DafRel.Props.C02.to_executable_returns_reference_rows_of_faithful_input
 #print axioms DafRel.Props.C02.sql_history_executes_to_direct_rows
+#print axioms DafRel.Props.C02.sql_history_executes_to_direct_rows_of_faithful_leaves
 #print axioms DafRel.Props.C02.table_payload_is_faithful
